@@ -80,7 +80,31 @@ def run(cx):
                 break
     arms = len(t0[2]) + (1 if f.blocks[t0[3]]["t"][0] != "unreachable" else 0) if t0 else 0
     cx.ob("C14.R1", "into_js:all-variants", arms == 6, "into_js has an arm for each of the 6 JSON value kinds (found %d)" % arms, f.loc())
-    cx.floor("C14.R1", 3)
+    # each JSON kind becomes the JS kind of the same name: a number a JS number (int32 or double - never a BigInt or a
+    # string, which `===`, arithmetic, Date, Math and JSON.stringify treat differently), a string a JS string, ...
+    if t0:
+        adt = "serde_json::Value"
+        try:
+            variants = {str(d): n_ for n_, d in m.variants([a for a in m.adts if a.endswith("serde_json::Value")][0])}
+        except Exception:
+            variants = {}
+        allowed = {"Null": {"new_null", "new_undefined"}, "Bool": {"new_bool"}, "Number": {"new_int", "new_float", "new_number"},
+                   "String": {"from_string"}, "Array": {"from_array"}, "Object": {"from_object"}}
+        targets = {variants.get(v): tb for v, tb in t0[2] if variants.get(v)}
+        for kind, tb in sorted(targets.items()):
+            others = [x for k_, x in targets.items() if k_ != kind and x != tb] + ([t0[3]] if t0[3] != tb else [])
+            region = f.reach_from([tb], avoid=others)
+            made = set()
+            for c in f.calls():
+                mm = re.search(r"^rquickjs::Value::<'js>::((?:new|from)_[a-z_0-9]+)$|^rquickjs::Value::((?:new|from)_[a-z_0-9]+)$", c.q)
+                if c.b in region and mm:
+                    made.add(mm.group(1) or mm.group(2))
+            # the recursive arms (array / object) also build their elements with into_js: those are calls, not constructors
+            ok = bool(made) and made <= allowed.get(kind, set())
+            cx.ob("C14.R1", "into_js:kind:%s" % kind, ok,
+                  "a JSON %s enters the script engine as a JS value of the same kind (constructors used in that arm: %s; expected within %s)" % (
+                      kind.lower(), sorted(made) or "none", sorted(allowed.get(kind, []))), f.loc(tb))
+    cx.floor("C14.R1", 9)
 
     # ---- R2 ---------------------------------------------------------------------------------------
     g = m.one(r"^<acts::env::value::ActValue as rquickjs::FromJs<'js>>::from_js$")
